@@ -10,10 +10,15 @@ leaves every displayRoute bit-identical.  A failing route whose offending raw se
 known finding F-b; every other disagreement is a violation (DESIGN 6 F-g - stale routes after a shape moves away - is one).
 Third round (DESIGN 9.10): "pocket" family = unroutable, then routable (one connector end in a pocket of 3-4 overlapping walls; a later transaction opens it);
 a step at which the exact reference router finds NO obstacle-free path is not judged by route_ok but the placeholder route must equal the fresh router's; the
-degenerate-chord classifier additionally requires that the proved per-shape blocking test does not block the chord (avoid_lib.chords_unblocked)."""
+degenerate-chord classifier additionally requires that the proved per-shape blocking test does not block the chord (avoid_lib.chords_unblocked).
+Router options (seeded change C04-6, DESIGN 9.16; checks/avoid_opts.py): configs opt-* run the directed family "unblock" (the obstacle blocking a connector's own
+src-dst line is deleted / moved away / shrunk, blocked again, freed again; bystander obstacles) and move-heavy histories under the public Router flags
+InvisibilityGrph / UseLeesAlgorithm (all combinations); the fresh router of every step is built with the same flags.  RubberBandRouting is left out: it keeps
+routes that have a better alternative by design (router.cpp:1819-1824)."""
 import os, json, hashlib
 from vlib import common as C
 from checks import avoid_lib as A
+from checks import avoid_opts as AO
 
 PID = 'C06'
 TOL = 1e-6
@@ -42,6 +47,12 @@ ONLY_CONFIGS = [('only-orth-trans', 1, 10, 1), ('only-orth-pen50-trans', 1, 50, 
 # the router emits the straight line and must retry in every later transaction), then a wall is deleted / moved away / shrunk / slid aside
 POCKET_CONFIGS = [('pocket-poly-pen0-trans', 0, 0, 1), ('pocket-poly-pen0-notrans', 0, 0, 0), ('pocket-poly-pen10-trans', 0, 10, 1),
                   ('pocket-orth-trans', 1, 10, 1), ('pocket-orth-notrans', 1, 10, 0)]
+# router-option coverage (checks/avoid_opts.py, DESIGN 9.16): the public poly-line flags InvisibilityGrph / UseLeesAlgorithm in every combination,
+# on the directed family "unblock" (the obstacle blocking a connector's own src-dst line is deleted / moved away / shrunk, blocked again, freed again)
+# and on the move-heavy generic histories; the fresh router of every step has the same flags.  (name, mode, pen, trans, option combo name)
+OPT_CONFIGS = [('opt-invis0-poly-pen0-trans', 0, 0, 1, 'invis0'), ('opt-invis0-poly-pen0-notrans', 0, 0, 0, 'invis0'),
+               ('opt-invis0-poly-pen10-trans', 0, 10, 1, 'invis0'), ('opt-lees0-poly-pen0-trans', 0, 0, 1, 'lees0'),
+               ('opt-invis0-lees0-poly-pen0-trans', 0, 0, 1, 'invis0-lees0'), ('opt-default-poly-pen0-trans', 0, 0, 1, 'default')]
 CONTAINS_CONFIGS = [('contains-poly-pen0-trans', 0, 0, 1), ('contains-poly-pen0-notrans', 0, 0, 0), ('contains-poly-pen10-trans', 0, 10, 1),
                     ('contains-orth-trans', 1, 10, 1), ('contains-orth-notrans', 1, 10, 0)]
 
@@ -61,8 +72,9 @@ def op_str(o):
     return 'P'
 
 
-def hist_script(ops, mode, pen, trans):
-    return ['R %d %s 0.0 0.0 %d' % (mode, repr(float(pen)), trans)] + [op_str(o) for o in ops] + ['X']
+def hist_script(ops, mode, pen, trans, opts=None):
+    """opts: public Router member flags ((name, value), ...), set right after the router is created (checks/avoid_opts.py)"""
+    return ['R %d %s 0.0 0.0 %d' % (mode, repr(float(pen)), trans)] + AO.opt_lines(opts) + [op_str(o) for o in ops] + ['X']
 
 
 def scene_valid(shapes, conns, generic=True, family=None):
@@ -296,7 +308,7 @@ def evaluate(exe, drv, qdrv, hists, stats, with_model=True, samples=None):
     fails = []
     lines = []
     for h in hists:
-        lines += hist_script(h['ops'], h['mode'], h['pen'], h['trans'])
+        lines += hist_script(h['ops'], h['mode'], h['pen'], h['trans'], h.get('opts'))
     runs, rc, err = A.run_harness(exe, lines)
     if rc != 0 or len(runs) != len(hists):
         if len(hists) == 1:
@@ -324,7 +336,7 @@ def evaluate(exe, drv, qdrv, hists, stats, with_model=True, samples=None):
         for k, (shapes, conns) in enumerate(snaps):
             ids = sorted(shapes)
             cids = sorted(conns)
-            L = ['R %d %s 0.0 0.0 1' % (h['mode'], repr(float(h['pen'])))]
+            L = ['R %d %s 0.0 0.0 1' % (h['mode'], repr(float(h['pen'])))] + AO.opt_lines(h.get('opts'))     # the fresh router has the same flags
             L += ['A %d %s' % (i, A.fmt_poly(shapes[i])) for i in ids]
             L += ['C %d %d %d %d %d' % (c, conns[c][0][0], conns[c][0][1], conns[c][1][0], conns[c][1][1]) for c in cids]
             L += ['P', 'X']
@@ -512,7 +524,7 @@ def report(res, exe, drv, qdrv, fails, stats, do_shrink=True):
         h = f['hist']
         if f['kind'] == 'route_invalid' and f.get('degenerate'):
             stats['known_degenerate_chord'] += 1
-            obj = dict(f, hist=None, config=h['cfg'], history=[op_str(o) for o in h['ops']], script=hist_script(h['ops'], h['mode'], h['pen'], h['trans']))
+            obj = dict(f, hist=None, config=h['cfg'], history=[op_str(o) for o in h['ops']], script=hist_script(h['ops'], h['mode'], h['pen'], h['trans'], h.get('opts')))
             if not res.violation(obj, fingerprint='degenerate_chord'):
                 continue
         key = (id(h), f['kind'])
@@ -522,7 +534,7 @@ def report(res, exe, drv, qdrv, fails, stats, do_shrink=True):
             seen.add(key)
             stats['known_reroute_silent'] = stats.get('known_reroute_silent', 0) + 1
             obj = dict(f, hist=None, config=h['cfg'], mode=h['mode'], segmentPenalty=h['pen'], transactions=h['trans'],
-                       history=[op_str(o) for o in h['ops']], script=hist_script(h['ops'], h['mode'], h['pen'], h['trans']))
+                       history=[op_str(o) for o in h['ops']], script=hist_script(h['ops'], h['mode'], h['pen'], h['trans'], h.get('opts')))
             if not res.violation(obj, fingerprint='selective_reroute_not_flagged'):
                 continue
         if len(res.violations) >= 6:
@@ -547,7 +559,8 @@ def report(res, exe, drv, qdrv, fails, stats, do_shrink=True):
         obj.update({'config': h['cfg'], 'mode': h['mode'], 'segmentPenalty': h['pen'], 'transactions': h['trans'], 'family': h.get('family'),
                     'history': [op_str(o) for o in h['ops']],
                     'minimal_history': [op_str(o) for o in ops],
-                    'script': hist_script(ops, h['mode'], h['pen'], h['trans']),
+                    'script': hist_script(ops, h['mode'], h['pen'], h['trans'], h.get('opts')),
+                    'router_flags': AO.opts_json(h.get('opts')),
                     'replay': './check C06 --replay <this file>  (runs "script" on harness/c03_route.cpp, a fresh router per step, and compares)'})
         res.violation(obj)
 
@@ -578,7 +591,7 @@ def corpus_hists():
         if f.startswith('c06_') and f.endswith('.json'):
             j = json.load(open(os.path.join(d, f)))
             out.append(dict(cfg='corpus:' + f, mode=j['mode'], pen=j['segmentPenalty'], trans=j['transactions'], ops=parse_ops(j['history']),
-                            generic=False, family=j.get('family')))
+                            generic=False, family=j.get('family'), opts=AO.opts_from_json(j.get('router_flags'))))
     return out
 
 
@@ -592,7 +605,8 @@ def run(tier):
         'shared family: several connectors with exactly coincident endpoints, endpoints also exactly on shape vertices (no other boundary points)',
         'generic stream rejects scenes with a degenerate chord between graph vertices (the known finding F-b has its own stream)',
         'orthogonal mode: incremental vs fresh router only (its optimum is C05\'s subject); polyline: also vs the reference router optimum',
-        'Router::UseLeesAlgorithm=false, pins, junctions, clusters, checkpoints are not exercised']
+        'pins, junctions, clusters, checkpoints are not exercised; router flags: InvisibilityGrph and UseLeesAlgorithm in all four combinations (fresh router under the '
+        'same flags); RubberBandRouting is left out: by its own comments it keeps routes that may have a better alternative (router.cpp:1819-1824)']
     exe = A.harness(); drv = A.driver()
     qdrv = C.ocaml_build('c06', 'C06.v', 'c06_driver.ml', 'c06_model.ml')
     rng = C.SplitMix64(C.get_seed() ^ 0xC06)
@@ -653,6 +667,23 @@ def run(tier):
                 for t in tags:
                     stats['directed_variants'][fam + ':' + t] = stats['directed_variants'].get(fam + ':' + t, 0) + 1
                 hists.append(dict(cfg=name, mode=mode, pen=pen, trans=trans, ops=ops, generic=True))
+    # router options: own rng stream, so that the older families keep their histories per seed
+    rng_o = C.SplitMix64(C.get_seed() ^ 0xC0604)
+    combos = dict(AO.OPT_COMBOS)
+    for (name, mode, pen, trans, combo) in OPT_CONFIGS:
+        k = 0
+        n_un, n_gen = (7, 3) if tier == 'quick' else (60, 30)
+        while k < n_un:
+            ops, tags = AO.gen_unblock_history(rng_o)
+            if ops is None or simulate(ops, trans, generic=True) is None:
+                continue
+            k += 1
+            for t in tags:
+                stats['directed_variants']['unblock:' + t] = stats['directed_variants'].get('unblock:' + t, 0) + 1
+            hists.append(dict(cfg=name, mode=mode, pen=pen, trans=trans, ops=ops, generic=True, opts=combos[combo]))
+        for _ in range(n_gen):
+            ops = gen_history(rng_o, trans, False, w_add=5, w_move=65, w_resize=10, w_del=10)
+            hists.append(dict(cfg=name + '-moves', mode=mode, pen=pen, trans=trans, ops=ops, generic=True, opts=combos[combo]))
     allfails = []
     for i in range(0, len(hists), 60):
         allfails += evaluate(exe, drv, qdrv, hists[i:i + 60], stats, True, samples)
@@ -699,7 +730,8 @@ def replay(path):
     if fam is None:
         fam = 'pocket' if 'pocket' in cfgname else 'shared' if cfgname.startswith('shared') else \
             'contains' if cfgname.startswith('contains') or simulate(ops, j['transactions'], generic=False) is None else None
-    h = dict(cfg='replay', mode=j['mode'], pen=j['segmentPenalty'], trans=j['transactions'], ops=ops, generic=False, family=fam)
+    h = dict(cfg='replay', mode=j['mode'], pen=j['segmentPenalty'], trans=j['transactions'], ops=ops, generic=False, family=fam,
+             opts=AO.opts_from_json(j.get('router_flags')))
     fails = evaluate(exe, drv, qdrv, [h], new_stats(), True, None)
     for f in fails:
         f.pop('hist', None)
@@ -727,12 +759,15 @@ META = {
                 'the extracted reference router optimum (route cost to 1e-6), route_ok on every route, bit-identical routes over empty transactions. Streams: '
                 'generic, move-heavy, degenerate chord, "contains" (an endpoint starts strictly inside a shape that is then moved / resized / deleted away, moved back, '
                 'or replaced by another shape, followed by a change that recomputes the endpoint\'s visibility), "shared" (several connectors with exactly coincident endpoints) '
-                'and "pocket" (unroutable, then routable: a connector end enclosed by 3-4 overlapping walls, then a wall deleted / moved away / shrunk / slid aside; transactions on and off, polyline and orthogonal).',
+                'and "pocket" (unroutable, then routable: a connector end enclosed by 3-4 overlapping walls, then a wall deleted / moved away / shrunk / slid aside; transactions on and off, polyline and orthogonal); '
+                'router options: the public flags InvisibilityGrph / UseLeesAlgorithm in all four combinations (fresh router under the same flags) on the directed family "unblock" '
+                '(blocker of a connector\'s own src-dst line deleted / moved / shrunk / back / away again) and on move-heavy histories.',
         'design_ref': 'DESIGN.md 5.6'},
     'level_note': 'partial: the refinement theorem covers the whole scene, shapes and connector ends (queue_refines_sequential_full; pin-move '
                   'updates are proved for the generalised update function, the op log has no pin-move op); the clamped reflection estimate is proved a lower '
                   'bound (reflect_lower_bound_clamped); the invisibility-graph bookkeeping (m_blocker, checkAllBlockedEdges) and the '
-                  'orthogonal optimum are exercised only through the history-vs-scratch comparison. Known finding F-b (degenerate chord) has its own '
+                  'orthogonal optimum are exercised only through the history-vs-scratch comparison, and so is the alternative bookkeeping of InvisibilityGrph=false (checkAllMissingEdges) and '
+                  'UseLeesAlgorithm=false (pairwise visibility); RubberBandRouting is outside the property (keeps non-optimal routes by design). Known finding F-b (degenerate chord) has its own '
                   'stream and classifier (narrowed in round 3: only chords with fewer than two end-point touches, which the proved per-shape test does not block); '
                   'F-g (stale routes, fixed in /repo) is kept as corpus regression entries. The retry of connectors without a route (m_needs_reroute_flag) is not modelled: seen only through the pocket '
                   'family, where steps without any obstacle-free path (reference router: NoPath) are compared with the fresh router\'s placeholder route only. Trusted: Coq kernel, extraction, '
